@@ -188,7 +188,8 @@ func runC17(c *Ctx) {
 	rng0 := c.Rand(0)
 	g0 := gen.New(rng0, w.defs)
 	for i := 0; i < n; i++ {
-		d := g0.Document(gen.Profile{Schema: "bill/invoice", MaxLines: 8, Preset: true, FixedAtCur: true})
+		// every other document with many combos per row that collide in their groups
+		d := g0.Document(gen.Profile{Schema: "bill/invoice", MaxLines: 8, Preset: true, FixedAtCur: true, TaxFocus: i%2 == 1})
 		bases = append(bases, base{"generated", d.JSON, d.Features})
 	}
 	c.Parallel(len(bases), func(i int) {
